@@ -102,6 +102,54 @@ def has_surrogate(evs):
     return any(is_high(u) or is_low(u) for e in evs for x in e[1:] for u in flat_units(x))
 
 
+def split_ver(ver):
+    """the version field of a case may carry the indent dimension: "1.1 -I2" = version 1.1, doIndent with amount 2"""
+    t = ver.split()
+    ind = None
+    for f in t[1:]:
+        if f.startswith("-I"):
+            ind = int(f[2:])
+    return t[0], ind
+
+
+def canon_list(text):
+    """canonical event script (as printed by the harness / expected_tree) -> list of node tuples"""
+    t, out, i = text.split(), [], 0
+    while i < len(t):
+        k = t[i]
+        if k == "S":
+            n = int(t[i + 2])
+            out.append(tuple(t[i:i + 3 + 2 * n]))
+            i += 3 + 2 * n
+        elif k == "P":
+            out.append(tuple(t[i:i + 3]))
+            i += 3
+        else:
+            out.append(tuple(t[i:i + 2]))
+            i += 2
+    return out
+
+
+def is_ws_node(x):
+    return x[0] == "T" and all(u in (32, 9, 10, 13) for u in untok(x[1]))
+
+
+def same_modulo_indentation(expected, parsed):
+    """parsed = expected plus white-space-only text nodes (what indentation may add); both coalesced by the parser,
+    so white space put next to an existing text node shows as a changed node"""
+    base, var = canon_list(expected), canon_list(parsed)
+    i = j = 0
+    while i < len(base) or j < len(var):
+        if i < len(base) and j < len(var) and base[i] == var[j]:
+            i += 1
+            j += 1
+        elif j < len(var) and is_ws_node(var[j]):
+            j += 1
+        else:
+            return False
+    return True
+
+
 def script_line(cid, enc, ver, evs):
     parts = [cid, enc, ver]
     if enc == "UTF8":
@@ -123,7 +171,7 @@ def script_line(cid, enc, ver, evs):
 
 def parse_script(tokens):
     evs, i = [], 0
-    if tokens and tokens[0] == "-L":
+    while tokens and (tokens[0] == "-L" or tokens[0].startswith("-I")):
         tokens = tokens[1:]
     while i < len(tokens):
         k = tokens[i]
@@ -168,7 +216,7 @@ def classify(enc, ver, evs):
     """Returns (representable, classes): representable = the tree can be written as a well-formed document of
     this version/encoding that parses back to itself; classes = known-finding classes the script falls in
     (decided from the script alone)."""
-    v11 = ver == "1.1"
+    v11 = split_ver(ver)[0] == "1.1"
     rep, cls = True, set()
     for e in evs:
         strs = []
@@ -222,6 +270,7 @@ CORE = ["b2", "b3", "pair", "cdend", "cr", "lt", "quot", "nel", "lsep", "x100"]
 
 
 def header_len(enc, ver):
+    ver = split_ver(ver)[0]
     return len('<?xml version="%s" encoding="%s"?>' % (ver, enc))
 
 
@@ -373,13 +422,28 @@ def gen_cases(ctx, n_random, boundary_fraction, always_core=True):
         if kind == "pi":
             evs[0] = ("P", evs[0][1], clean_pi(evs[0][2]))
         cases.append(("boundary:%s:%s" % (kind, sp), enc, ver, evs))
+    # 2b. the 12 cells of XalanXMLSerializerFactory {UTF-8, UTF-16, other} x {1.0, 1.1} x {indent, no indent}: every
+    #     version-specific character in text and attribute position, with and without indentation (always present)
+    probe = [0x85, 0x9F, 0x7F, 0x2028, 13, 9, 10, 0xE9, 0x20AC]
+    for enc in ENCODINGS:
+        for ver in VERSIONS:
+            for ind in (None, 0, 2):
+                v = ver if ind is None else "%s -I%d" % (ver, ind)
+                for extra in ([], [1], [0x1F]):       # a C0 control: reference under 1.1, error under 1.0
+                    s1 = u16("x") + probe + extra + u16("y")
+                    evs = [("S", u16("r"), [(u16("a"), s1)]), ("S", u16("e"), []), ("T", s1), ("E", u16("e")),
+                           ("S", u16("c"), []), ("C", s1), ("E", u16("c")), ("S", u16("e"), []), ("E", u16("e")), ("E", u16("r"))]
+                    cases.append(("cell:%s" % ("indent" if ind is not None else "plain"), enc, v, evs))
     # 3. random trees
     mixes = [("ascii", ["ascii"]), ("specials", ["ascii", "special", "special"]), ("latin", ["ascii", "latin", "special"]),
              ("unicode", ["ascii", "latin", "bmp", "pair", "special", "cdend"]), ("dense", ["bmp", "pair", "latin", "bmp"])]
     for i in range(n_random):
         mname, mix = mixes[i % len(mixes)]
         enc, ver = r.choice(ENCODINGS), r.choice(VERSIONS)
-        cases.append(("tree:" + mname, enc, ver, rand_tree(ctx, mix, big=(i % 3 == 0))))
+        ind = r.choice([None, None, None, 0, 2, 3])
+        if ind is not None:
+            ver = "%s -I%d" % (ver, ind)
+        cases.append(("tree%s:%s" % ("" if ind is None else "-indent", mname), enc, ver, rand_tree(ctx, mix, big=(i % 3 == 0))))
     # 4. malformed stream: lone surrogates, characters XML forbids
     for i in range(max(40, n_random // 10)):
         enc, ver = r.choice(ENCODINGS), r.choice(VERSIONS)
@@ -467,6 +531,12 @@ def evaluate(ctx, cases, impl, model):
         new, newp, old, oldp = ri.split("|", 3)
         representable, kcls = classify(enc, ver, evs)
         expected = expected_tree(evs)
+        indent = split_ver(ver)[1]
+
+        def differs(parsed):
+            if indent is None:
+                return parsed != expected
+            return not same_modulo_indentation(expected, parsed)
         # ---- correspondence (model vs library, byte-exact) ----
         if model:
             rm = res_m.get(cid)
@@ -490,7 +560,7 @@ def evaluate(ctx, cases, impl, model):
                 what = "representable tree, but the serializer failed with %s" % new
             elif newp.startswith("PARSEERR"):
                 what = "output is not well-formed: %s" % newp[:200]
-            elif newp != expected:
+            elif differs(newp):
                 what = "output parses to a different tree:\n#     parsed   %s\n#     expected %s" % (newp[:400], expected[:400])
             if what:
                 for k in ("K-new-1",):
@@ -500,7 +570,7 @@ def evaluate(ctx, cases, impl, model):
             if new.startswith("ok:"):
                 if newp.startswith("PARSEERR"):
                     what = "unrepresentable tree: no error, and the output is not well-formed (%s)" % newp[:160]
-                elif newp != expected:
+                elif differs(newp):
                     what = "unrepresentable tree: no error, output parses to a different tree:\n#     parsed   %s\n#     expected %s" % (newp[:300], expected[:300])
                 else:
                     what = None   # the oracle's notion of representable was too strict for this input; nothing wrong observed
@@ -524,7 +594,7 @@ def evaluate(ctx, cases, impl, model):
 
 def legacy_class(enc, ver, evs):
     """known-finding classes of the legacy serializer (decided from the script alone)"""
-    v11 = ver == "1.1"
+    v11 = split_ver(ver)[0] == "1.1"
     allu = []
     for e in evs:
         for x in e[1:]:
@@ -569,7 +639,7 @@ def run(ctx):
     if not ok_lib:
         ctx.broken.append("library does not build from the working tree: " + liblog[-500:])
         return ctx.finish(LEVEL)
-    proved = ctx.prove(["Properties_C04.v"], ["GenSer"])
+    proved = ctx.prove(["Properties_C04.v"], ["GenSer", "GenOutopt"], extra_targets=["SerIndentDefs.vo"])
     model, ok_m, mlog = core.build_model(FAMILY)
     if not ok_m:
         ctx.broken.append("model extraction/build failed: " + mlog[-500:])
@@ -589,7 +659,8 @@ def run(ctx):
             for l in open(os.path.join(cdir, fn)):
                 t = l.split()
                 if len(t) >= 3 and not l.startswith("#"):
-                    corpus.append(("corpus:" + fn, t[1], t[2], parse_script(t[3:])))
+                    flags = [f for f in t[3:5] if f.startswith("-I")]
+                    corpus.append(("corpus:" + fn, t[1], " ".join([t[2]] + flags), parse_script(t[3:])))
     n_random, frac = (1500, 0.12) if not ctx.thorough else (30000, 1.0)
     cases = corpus + gen_cases(ctx, n_random, frac)
     ctx.cov["samples"] = [script_line("s%d" % i, c[1], c[2], c[3])[:300] for i, c in enumerate(cases[:3] + cases[len(cases) // 2: len(cases) // 2 + 3] + cases[-3:])]
@@ -663,7 +734,9 @@ def replay(ctx, path):
             exp = expected_tree(evs)
             representable, kcls = classify(t[1], t[2], evs)
             print("   expected:", exp[:300], "(representable)" if representable else "(not representable: an error is expected)")
-            okc = (f[0].startswith("ok:") and len(f) > 1 and f[1] == exp) if representable else f[0].startswith("err:")
+            indented = any(x.startswith("-I") for x in t[3:5])
+            same = len(f) > 1 and (same_modulo_indentation(exp, f[1]) if indented and not f[1].startswith("PARSEERR") else f[1] == exp)
+            okc = (f[0].startswith("ok:") and same) if representable else f[0].startswith("err:")
             print("   verdict :", "as the property demands" if okc else "FAILS the property", sorted(kcls))
             bad += 0 if okc else 1
     return 1 if bad else 0
